@@ -245,6 +245,10 @@ func c07Strata() []*gast.Grammar {
 		mk(r("S", gast.C(gast.S(gast.Cl(&gast.ClassSpec{Inverted: true}), gast.Ref("S")), gast.L("x")))),
 		mk(r("S", gast.C(gast.S(gast.Opt(gast.L("a")), gast.Ref("T")), gast.L("b"))), r("T", gast.S(gast.Star(gast.L("c")), gast.Ref("S")))),
 		mk(r("S", gast.S(gast.Plus(gast.L("a")), gast.Ref("S"))), r("T", gast.S(gast.Dot(), gast.Ref("T")))),
+		// leading-whitespace idiom: the nullable rule sorts after the others and leads back into the cycle behind a consuming item
+		mk(r("Expr", gast.C(gast.S(gast.Ref("_"), gast.Ref("Expr"), gast.L("+"), gast.Ref("Term")), gast.Ref("Term"))),
+			r("_", gast.Star(gast.C(gast.L(" "), gast.Ref("Comment")))), r("Comment", gast.S(gast.L("/*"), gast.Opt(gast.Ref("Expr")), gast.L("*/"))), r("Term", gast.Plus(gast.Cl(gast.Chars("01"))))),
+		mk(r("A", gast.C(gast.S(gast.Ref("zz"), gast.Ref("A"), gast.L("x")), gast.L("y"))), r("zz", gast.Opt(gast.S(gast.L("("), gast.Ref("A"), gast.L(")"))))),
 		mk(r("A", gast.Rec(gast.Ref("B"), gast.Ref("R"), "L1")), r("B", gast.S(gast.L("x"), gast.Ref("C"))), r("C", gast.Thr("L1")), r("R", gast.Ref("C"))),
 		mk(r("Stmt", gast.Rec(gast.S(gast.Ref("Expr"), gast.L(";")), gast.Ref("Resync"), "L1")), r("Expr", gast.C(gast.Plus(gast.Cl(gast.Chars("01"))), gast.Thr("L1"))),
 			r("Resync", gast.S(gast.Star(gast.Cl(&gast.ClassSpec{Chars: []rune(";01"), Inverted: true})), gast.Ref("Stmt")))),
